@@ -495,6 +495,12 @@ func vSelectorMatches(selector string, lbls map[string]string) bool {
 		return true
 	}
 	for _, req := range strings.Split(selector, ",") {
+		if strings.HasPrefix(req, "!") && !strings.ContainsAny(req, "=, ()") {
+			if _, ok := lbls[req[1:]]; ok { // "!key": the key must be absent
+				return false
+			}
+			continue
+		}
 		kv := strings.SplitN(req, "=", 2)
 		if len(kv) != 2 {
 			sel, err := labels.Parse(selector)
